@@ -892,13 +892,17 @@ RULE = ('random operations on random rectangular partitions (1-4 axes, 1-7 point
         'uniform and non-uniform vectors, nodes on/off the boundary, zero-extent axes): constructor + all derived '
         'vectors, index (edges, nodes, interior, outside; floating), __getitem__ (ints incl. negative/out of range, '
         'slices with None/negative/over-long bounds and steps 0,+-1,2,3,5, ellipsis, None, too many indices, index '
-        'lists), insert/append, squeeze, byaxis, uniform_partition_fromintv, uniform_partition with every dropped '
+        'lists), HISTORIES (2-4 partitions sharing one RectGrid object, attributes read in random orders and re-read, '
+        'returned freshly-computed arrays overwritten by the caller, source partitions re-observed after deriving '
+        'p[...] / squeeze / insert from them), insert/append, squeeze, byaxis, uniform_partition_fromintv, uniform_partition with every dropped '
         'parameter and inconsistent ones, uniform_partition_fromgrid, nonuniform_partition; a case is non-trivial '
         'unless the operation returns its input unchanged; distinct by the full operation term')
 ASSUMPTIONS = ['exact arithmetic: limits/coordinates are dyadic so that float results are exact (tolerance 1e-12 for '
                'the quotients in boundary fractions, floating indices and non-dyadic uniform grids)',
                'np.isclose / np.allclose decisions (nodes_on_bdry, is_uniform, consistency of four given parameters, '
                'rounding of the computed shape) are modelled as exact equality; inputs stay away from the tolerance band']
+ASSUMPTIONS.append('the model is pure: observables are functions of (set, grid) only; independence from object history, '
+                   'caches and caller-side writes is validated by the history cases and the aliasing probes, not proved')
 TRUSTED = ['C14/Model.v hand-written model of RectPartition, RectGrid/IntervalProd checks, normalized_index_expression, '
            'Python slice and NumPy integer-array indexing semantics (validated by the correspondence)']
 LEVEL_TEXT = ('Proof: for a hand-written Coq model of RectPartition / RectGrid / IntervalProd / normalized_index_expression '
